@@ -4,6 +4,8 @@ import json, os
 ROOT = os.path.dirname(os.path.dirname(os.path.abspath(__file__)))
 props = [json.loads(l) for l in open(os.path.join(ROOT, "properties.jsonl"))]
 CLAIMED = json.load(open(os.path.join(ROOT, "tools", "claimed.json")))
+import subprocess
+HOOK_COMMIT = subprocess.run(['git', '-C', '/repo', 'log', '--format=%h', '--grep=^verif hook:', '-n', '1'], capture_output=True, text=True).stdout.strip() or 'unknown'
 checks, na = [], []
 for p in props:
     pid = p["id"]
@@ -25,9 +27,9 @@ for p in props:
 m = {
     "version": 1,
     "setup_cmd": "./check setup",
-    "hooks": {"guard": "avl_savefile_verif", "enable": "RUSTFLAGS='--cfg avl_savefile_verif' (set by vp/common.py build_harness(hook=True)); no hook commits exist yet",
+    "hooks": {"guard": "avl_savefile_verif", "enable": "RUSTFLAGS='--cfg avl_savefile_verif' (set by vp/common.py build_harness(hook=True), separate target dir harness/target_hook); used by C16 only: savefile_abi::verif_hooks::LOCK_LOG records request/acquire/release events of the three global cache mutexes",
               "baseline_off_cmd": "cd /repo && (cargo nextest run --workspace --no-fail-fast --test-threads 8 --offline || cargo test --workspace --no-fail-fast --offline)",
-              "source_commits": [], "add_only": True},
+              "source_commits": [HOOK_COMMIT], "add_only": True},
     "engines": [{"name": "coq-proof+correspondence", "path": "/verif/check", "serves_properties": sorted(CLAIMED),
                  "kind_free_text": "Coq 8.16.1 theorems over an executable Gallina model (coq/theories, coq/Properties), tied to /repo by (T) tables re-extracted from the sources on every run and proved equal to the model's constants (vp/extract.py, ExtractedAgree.v) and (C) a correspondence check that runs the real implementation (harness/) and the model (vm_compute inside coqc) on the same generated inputs"}],
     "checks": checks,
